@@ -762,6 +762,10 @@ impl From<ConvexCellAlternative> for ConvexCell<WithoutFaces> {
     }
 }
 
+#[cfg(kani)]
+#[path = "/verif/kani/convex_cell_priv.rs"]
+mod verif_kani_convex_cell;
+
 #[cfg(test)]
 mod tests {
     use super::*;
